@@ -105,7 +105,7 @@ let event (toks : string list) : M.event =
   | ["wintr"; n] -> M.EWerr (num n)      (* one poll_write failing with ErrorKind::Interrupted: write_all does not retry, any write error ends run() *)
   | ["cfault"; _] -> M.ENop              (* poll_close failing or pending: the library never closes the transport *)
   | "wmode" :: _ -> M.ENop
-  | "start" :: i :: h :: kind :: r ->
+  | "start" :: i :: h :: kind :: r | "startown" :: i :: h :: kind :: r ->
     let k = match kind with
       | "pub" -> M.OPub (publish_opts r)
       | "sub" -> M.OSub (subscribe_opts r)
